@@ -267,6 +267,15 @@ def cases(draw):
         if draw(st.integers(0, 4)) == 0:
             return {"src": {"": hdr + "from library import m\nm.f(1)\n", "m": programs.HDR + snippet}, "opts": opts, "family": "invalid-in-library"}
         return {"src": hdr + snippet, "opts": opts, "family": "dialect-invalid"}
+    if k == 17:
+        # option comments: well-formed lists with trailing remarks / odd separators / many names
+        names = [draw(st.sampled_from(repo.OPTION_NAMES + ["no-" + n.replace("_", "-") for n in repo.OPTION_NAMES] + ["unknown_option", "x"]))
+                 for _ in range(draw(st.integers(1, 8)))]
+        sep = draw(st.sampled_from([", ", ",", " , ", " ", "; ", ",,"]))
+        tail = draw(st.sampled_from(["", " (smaller output)", ".", " = true", "!", " # again", "\t", " -- note", ":", "'"]))
+        lead = draw(st.sampled_from(["# pytrapic: ", "#pytrapic:", "  # note pytrapic: ", "# pytrapic:pytrapic: "]))
+        line = lead + sep.join(names) + tail
+        return {"src": line + "\n" + programs.HDR + "db.Setting = 1\n", "opts": opts, "family": "directive-line"}
     body, n = CONSTEXPR[draw(st.integers(0, len(CONSTEXPR) - 1))]
     src = programs.HDR + f"@constexpr\ndef cx(a):\n    {body}\n" + "".join(f"d{i}.Setting = cx({i + draw(st.integers(0, 50))})\n" for i in range(n))
     return {"src": src, "opts": opts, "family": "constexpr-body", "constexpr_calls": n}
@@ -283,7 +292,7 @@ def run_shard(ctx):
                     check_case(c, ctx.stats)
                 except Violation as v:
                     ctx.stats.violations.append({"signature": v.signature, "detail": v.detail, "case": c})
-    hyp_search(ctx, cases(), lambda c: check_case(c, ctx.stats), ctx.scale(80, 1500))
+    hyp_search(ctx, cases(), lambda c: check_case(c, ctx.stats), ctx.scale(80, 1500), case_cap=0)
 
 
 def replay(case):
